@@ -19,6 +19,15 @@ theorem sumOuts_cons (o : TxOut) (os : List TxOut) : sumOuts (o :: os) = o.value
 theorem sumOuts_append (a b : List TxOut) : sumOuts (a ++ b) = sumOuts a + sumOuts b := by
   simp [sumOuts]
 
+theorem amount_le_sumAmounts (ps : List Prp) (p : Prp) (h : p ∈ ps) : p.amount ≤ sumAmounts ps := by
+  induction ps with
+  | nil => cases h
+  | cons q qs ih =>
+    rw [sumAmounts_cons]
+    rcases List.mem_cons.1 h with rfl | h'
+    · omega
+    · have := ih h'; omega
+
 theorem sumAmounts_le (ps : List Prp) (B : Nat) (h : ∀ p ∈ ps, p.amount ≤ B) : sumAmounts ps ≤ ps.length * B := by
   induction ps with
   | nil => simp [sumAmounts]
@@ -109,12 +118,12 @@ theorem propOuts_facts (ps : List Prp) (po : List TxOut) (h : ∀ p ∈ ps, p.am
           · simp only [ht]; omega
           · exact h3 o ho
 
-/-- the fee quote under the bounds: no wrap, and below 2·10^14 -/
-theorem feeOf_bound (r k m : Nat) (hr : r ≤ 10 ^ 6) (hk : k ≤ 10 ^ 6) (hm : m ≤ 1001) :
-    feeOf r k m = (k * 180 + m * 34) * (r / 5 * 5 + 5) ∧ feeOf r k m < 2 * 10 ^ 14 := by
-  have h1 : k * 180 + m * 34 ≤ 180034034 := by omega
+/-- the fee quote under the bounds: no wrap, and below 3·10^14 -/
+theorem feeOf_bound (r k m : Nat) (hr : r ≤ 10 ^ 6) (hk : k ≤ 10 ^ 6) (hm : m ≤ 10 ^ 6 + 1) :
+    feeOf r k m = (k * 180 + m * 34) * (r / 5 * 5 + 5) ∧ feeOf r k m < 3 * 10 ^ 14 := by
+  have h1 : k * 180 + m * 34 ≤ 214000034 := by omega
   have h2 : r / 5 * 5 + 5 ≤ 1000005 := by omega
-  have h3 : (k * 180 + m * 34) * (r / 5 * 5 + 5) ≤ 180034034 * 1000005 := Nat.mul_le_mul h1 h2
+  have h3 : (k * 180 + m * 34) * (r / 5 * 5 + 5) ≤ 214000034 * 1000005 := Nat.mul_le_mul h1 h2
   have h4 : (k * 180 + m * 34) * (r / 5 * 5 + 5) < M := by rw [M_val]; omega
   unfold feeOf
   rw [Nat.mod_eq_of_lt h4]
